@@ -257,6 +257,23 @@ fn wide_cases(part: &str) -> Vec<ImgCase> {
             }
         }
     }
+    // portrait images 300 rows high
+    let bpps: Vec<u8> = match part {
+        "sub-byte" => vec![1, 2, 4],
+        _ => vec![8, 16, 24, 32],
+    };
+    for bpp in bpps {
+        for be in [false, true] {
+            for w in [1u32, 3] {
+                let h = 300;
+                let data = pattern(4, required_len(w, h, bpp));
+                v.push(ImgCase { bpp, be, w, h, data: data.clone(), sub: None, sub2: None, at: (7, -100), center: false });
+                for s in [(0, 250, w, 50), (0, 255, 1, 2), (0, 299, w, 1), (-1, 290, 5, 20)] {
+                    v.push(ImgCase { bpp, be, w, h, data: data.clone(), sub: Some(s), sub2: None, at: (5, -3), center: false });
+                }
+            }
+        }
+    }
     v
 }
 
@@ -271,7 +288,7 @@ fn run_part(run: &mut Run) {
                 || cases(tier, &part),
                 check_img,
             );
-            run.sweep_vec("wide-images", "raw widths x 2 data orders x images 255, 256, 257, 264, 300, 320 and 513 px wide and 3 rows high: whole, 7 sub-areas (narrow ones near both ends, overlapping the edges) and 2 nested sub-areas", || wide_cases(&part), check_img);
+            run.sweep_vec("wide-images", "raw widths x 2 data orders x images 255, 256, 257, 264, 300, 320 and 513 px wide and 3 rows high: whole, 7 sub-areas (narrow ones near both ends, overlapping the edges) and 2 nested sub-areas; images 1 and 3 px wide and 300 rows high with 4 sub-areas near the bottom", || wide_cases(&part), check_img);
             if part == "bytes" {
                 run.sweep_vec(
                     "new",
